@@ -47,6 +47,17 @@ def main():
         out += ["", "| benign variant (must stay silent) | result |", "|---|---|"]
         for b in st.get("benign", []):
             out.append("| %s | %s |" % (b["name"], "silent" if b.get("silent") else "**NOISY** %s" % b.get("noise")))
+    out += ["", "### 11.5 Rules evaluated per property (generated from the evidence files of the last run)", "",
+            "| property | rule instances | functions analysed | known findings | rules |", "|---|---|---|---|---|"]
+    for ep in sorted(glob.glob(os.path.join(HERE, "evidence", "C*.json"))):
+        ev = json.load(open(ep))
+        c = ev["coverage"]
+        ids = []
+        for r in c.get("rules", []):
+            if r["id"] not in ids:
+                ids.append(r["id"])
+        out.append("| %s | %d (%d distinct non-trivial) | %d | %d | %s |" % (
+            ev["property_id"], c["evaluations"], c["distinct_nontrivial"], c.get("n_functions_analysed", 0), len(c.get("known_findings", [])), ", ".join(ids)))
     out += ["", E]
     p = os.path.join(HERE, "DESIGN.md")
     s = open(p).read()
